@@ -90,6 +90,7 @@ def main(bdir, gen_dir, aux, exported_file, built_file=None):
     protos = dict(fortran=X.fortran_protos(repo), pascal=X.pascal_protos(repo), cython=cy_protos)
     swig = X.swig_refs(repo, cp, cc)
     cpp = X.cpp_refs(repo, cp, cc)
+    cpp_typed, cpp_info = X.cpp_wrapper_protos(repo, bdir, aux, {n: p_ for n, p_ in cp.items() if p_.file != '<libc>'})
     vers = X.versions(repo)
     fwr = X.fortran_wrappers(repo)
     bstructs = dict(fortran=X.fortran_structs(repo, cst), pascal=pu['structs'], cython=X.cython_structs(repo, cst))
@@ -265,6 +266,32 @@ def main(bdir, gen_dir, aux, exported_file, built_file=None):
             key = 'pascal/xraylib_iface.pas decl %s' % n
             report['diffs'].append(dict(kind='iface-impl', binding='pascal', name=n, file='pascal/xraylib_iface.pas', line=di.get(n, (0, 0))[1], found=di.get(n, ('not declared',))[0], expected=dm.get(n, ('not defined in pascal/xraylib_impl.pas',))[0], key=key,
                                         what='pascal/xraylib_iface.pas declares %s, pascal/xraylib_impl.pas defines %s' % (di.get(n, ('nothing',))[0], dm.get(n, ('nothing',))[0]), known=key in fkeys))
+    # ---- C++: declared parameter / result types of every wrapper (template instantiations, free functions, methods, forwarding free functions,
+    #      copy constructor, destructor) against the visible signature of the C function it wraps
+    for p_ in cpp_typed:
+        c = cp.get(p_.cname)
+        ok = c is not None and len(p_.args) == len(vis(c)) and agree(p_.ret, c.ret) and all(agree(x, y) for x, y in zip(p_.args, vis(c)))
+        if not ok:
+            key = '%s types %s' % (p_.file, p_.name)
+            cv = None if c is None else X.Proto(c.name, c.ret, vis(c), [], '', c.file, c.line)
+            bad = []
+            if c is not None:
+                if not agree(p_.ret, c.ret): bad.append('result: %s, C returns %s' % (fmt_types(X.Proto('', p_.ret, [], [], '', '', 0))[:-2], fmt_types(X.Proto('', c.ret, [], [], '', '', 0))[:-2]))
+                if len(p_.args) != len(vis(c)): bad.append('%d parameters, the C function shows its caller %d' % (len(p_.args), len(vis(c))))
+                else:
+                    off = len(p_.args) - len(p_.argnames)       # a method: the member `cs` is argument 0
+                    for i_, (x, y) in enumerate(zip(p_.args, vis(c))):
+                        if not agree(x, y):
+                            nm_ = p_.argnames[i_ - off] if 0 <= i_ - off < len(p_.argnames) else 'this->cs'
+                            cn_ = [n_ for n_, t_ in zip(c.argnames, c.args) if t_ not in HIDDEN]
+                            bad.append('parameter %d `%s` is declared %s, the C prototype has %s%s' % (i_ + 1, nm_, fmt_types(X.Proto('', x, [], [], '', '', 0))[:-2], fmt_types(X.Proto('', y, [], [], '', '', 0))[:-2],
+                                       ' `%s`' % cn_[i_] if i_ < len(cn_) and cn_[i_] else ''))
+            exp = 'no such function in the C headers' if c is None else '%s  (%s:%d)' % (c.text, c.file, c.line)
+            report['diffs'].append(dict(kind='prototype-cpp', binding='cpp', name=p_.name, file=p_.file, line=p_.line, found=p_.text, expected=exp, key=key,
+                                        found_types=[p_.ret] + p_.args, expected_types=None if c is None else [c.ret] + vis(c),
+                                        what='%s:%d declares the wrapper %s of %s with result/arguments %s; the C function shows its caller %s%s' % (
+                                            p_.file, p_.line, p_.name, p_.cname, fmt_types(p_), 'nothing' if cv is None else fmt_types(cv), (': ' + '; '.join(bad)) if bad else ''),
+                                        known=key in fkeys))
     # ---- IDL: the two hand-written declaration sets against the C prototypes and against each other
     for src_, ents in (('idl/libxrlidl.dlm', idlf['dlm']), ('idl/xraylib_idl.c', idlf['sysfun'])):
         for e in ents:
@@ -395,6 +422,10 @@ def main(bdir, gen_dir, aux, exported_file, built_file=None):
         emit_table(L, tag + '_name_refs', 'Nat', sorted(set(names)), str, 'C declarations named by hand in the %s file' % tag)
         emit_table(L, tag + '_param_refs', '(Nat × Nat)', sorted(set(pairs)), lambda x: '(%d,%d)' % x, 'typemap patterns (name, type) of the %s file' % tag)
     ref_tables(swig, 'swig'); ref_tables(cpp, 'cpp')
+    emit_table(L, 'proto_cpp', 'P', sorted(cpp_typed, key=lambda p_: nat_of(p_.cname)), rP,
+               'wrappers of cplusplus/xraylib++.h by the C function they wrap, C++ types mapped to C types (tools/extract_bindings.py cpp_type): %d template instantiations, %d free functions, '
+               '%d methods of Crystal::Struct (member cs first), %d free functions forwarding to a method, copy constructor, destructor' % (
+                   cpp_info['kinds'].get('inst', 0), cpp_info['kinds'].get('plain', 0), cpp_info['kinds'].get('method', 0), cpp_info['kinds'].get('delegate', 0)))
     # IDL COMMON block members vs assigned names; Cython wrapper (published name, called C function) pairs
     emit_table(L, 'idl_common', 'Nat', sorted(idl_info['common_names'], key=nat_of), lambda n: str(nat_of(n)), 'members of COMMON XRAYLIB in idl/xraylib.pro (upper case)')
     emit_table(L, 'idl_assigned', 'Nat', sorted(idl_info['assigned_names'], key=nat_of), lambda n: str(nat_of(n)), 'names assigned a value in idl/*.pro (upper case)')
@@ -445,7 +476,7 @@ def main(bdir, gen_dir, aux, exported_file, built_file=None):
 
     js = dict(c=dict(constants={n: c.js() for n, c in cc.items()}, prototypes={n: p.js() for n, p in cp.items()}, public_functions=public_fns),
               bindings={b: [c.js() for _, c in tables[b]] for b in BINDINGS}, publishes=publishes,
-              protos={s: [p.js() for p in protos[s]] for s in PROTO_SETS}, swig=swig, cpp=cpp, versions=vers, exported=len(exported),
+              protos={s: [p.js() for p in protos[s]] for s in PROTO_SETS}, swig=swig, cpp=cpp, cpp_types=[p_.js() for p_ in cpp_typed], cpp_types_info=cpp_info, versions=vers, exported=len(exported),
               soft_tie=['%s:%d: the expression written into xraylib.dat for the Java constant %s is neither a macro name nor a literal, the extractor does not evaluate it: %s' % (u['file'], u['line'], u['field'], u['expr']) for u in jfeed['unevaluated']],
               java_dynamic=java_dynamic, java_dynamic_feed=[dict(field=c.name, c_expression=sl['expr'], value=c.show(), c_type=sl['ctype'], java_type=rd['jtype'], written_at='java/pr_data_java.c:%d' % sl['line'], read_at='java/Xraylib.java:%d' % rd['line'],
                                                                     c_header=cc[c.name].show() if c.name in cc else None) for c, sl, rd in jfeed['feed']], idl=idl_info, known=known, diffs=report['diffs'], findings=[list(f) for f in findings],
@@ -454,7 +485,7 @@ def main(bdir, gen_dir, aux, exported_file, built_file=None):
               pascal_public=[p_.js() for p_ in pu['public']], idl_routines=dict(dlm=idlf['dlm'], sysfun=idlf['sysfun'], defined_not_registered=idlf['unregistered']),
               build=dict(bdef, built=built, facts=[[t_, ok] for t_, ok in facts]), libtool=libtool, soname=[list(x) for x in pu['soname']], swig_invocations=swig_inv, swig_unincluded=swig_unincluded,
               counts=dict(c_constants=len(cc), c_prototypes=len(cp), java_dynamic=len(jfeed['feed']), **{'const_' + b: len(tables[b]) for b in BINDINGS}, **{'proto_' + s: len(protos[s]) for s in PROTO_SETS},
-                          swig_refs=len(swig['refs']), cpp_refs=len(cpp['refs']), versions=len(vers), families={f: len(fam[f]) for f in fam},
+                          swig_refs=len(swig['refs']), cpp_refs=len(cpp['refs']), cpp_types=len(cpp_typed), cpp_wrapped_c_functions=cpp_info['wrapped_c_functions'], versions=len(vers), families={f: len(fam[f]) for f in fam},
                           **{'calls_' + k: len(v['calls']) + len(v['direct']) for k, v in wr.items()}, **{'struct_' + k: len(v) for k, v in bstructs.items()}, c_structs=len(cst),
                           pascal_public=len(pu['public']), pascal_iface=len(iface), idl_dlm=len(idlf['dlm']), idl_sysfun=len(idlf['sysfun']), lib_sources=len(bdef['meson']),
                           libtool=len(libtool) + len(pu['soname']), swig_invocations=len(swig_inv)))
